@@ -3,7 +3,10 @@ package main
 import (
 	"bytes"
 	"fmt"
+	"path/filepath"
+	"runtime"
 	"sort"
+	"strconv"
 	"strings"
 	"time"
 	"unicode/utf8"
@@ -56,6 +59,7 @@ type c06case struct {
 	tagW     int
 	minW     int
 	layoutOK bool // message is in the layout-fidelity domain
+	pc       uintptr // the call site the record is attributed to (one of 320)
 }
 
 func c06gen(r *gen.R, testing bool) c06case {
@@ -64,6 +68,7 @@ func c06gen(r *gen.R, testing bool) c06case {
 	so := gen.StrOpt{HostilePc: 45, Long: false}
 	o := gen.Options{Str: so, MaxDepth: 3}
 	c.recCase = genTextCase(r, so, o)
+	c.pc = gen.Pick(r, c06sitePCs)
 	if testing {
 		sanitizeErrs(c.kvs)
 	}
@@ -284,6 +289,7 @@ func c06main(c *Ctx) {
 			recolor = fmt.Sprintf("fg=%d bg=%d", fg, bg)
 			c.R.Distinct("level_colour_pairs_set", recolor)
 		}
+		bridgeToo := r.P(20)
 		run := func(cs c06case) ([]byte, []tv) {
 			if cs.caller {
 				slog.AddFlags(slog.Lcaller)
@@ -309,7 +315,7 @@ func c06main(c *Ctx) {
 			case 5:
 				doomedRecord(FColor, w)
 			}
-			evs := capture(log, func() { lg.WriteThru(bg, cs.lvl, cs.ts, thePC, cs.msg, attrsOf(cs.kvs)) })
+			evs := capture(log, func() { lg.WriteThru(bg, cs.lvl, cs.ts, cs.pc, cs.msg, attrsOf(cs.kvs)) })
 			c.R.Add("write_events", int64(len(evs)))
 			if len(evs) != 1 || evs[0].Kind != mon.EvWrite {
 				return nil, []tv{{"one-write", "count", fmt.Sprintf("expected exactly one Write, saw %s", fmtEvents(evs))}}
@@ -318,7 +324,7 @@ func c06main(c *Ctx) {
 			// differential hygiene: the same record with neutralised values must show the same escape/control skeleton
 			n := cs
 			n.kvs = neutralKVs(cs.kvs)
-			evs2 := capture(log, func() { lg.WriteThru(bg, n.lvl, n.ts, thePC, n.msg, attrsOf(n.kvs)) })
+			evs2 := capture(log, func() { lg.WriteThru(bg, n.lvl, n.ts, n.pc, n.msg, attrsOf(n.kvs)) })
 			var vs []tv
 			if len(evs2) == 1 {
 				a, b := skeleton(payload), skeleton(evs2[0].Data)
@@ -327,6 +333,21 @@ func c06main(c *Ctx) {
 				}
 			}
 			vs = append(vs, c06check(payload, cs, c.Testing)...)
+			// the same message through the bridge entry (WriteInternal: what a log.Logger built by NewLogLogger calls, with
+			// the ONE line break log.Logger appends) reads exactly like the message issued directly, timestamp aside
+			if len(vs) == 0 && bridgeToo {
+				d1 := capture(log, func() { lg.WriteThru(bg, cs.lvl, cs.ts, cs.pc, cs.msg, nil) })
+				d2 := capture(log, func() { _, _ = lg.WriteInternal(bg, cs.lvl, cs.pc, []byte(cs.msg+"\n")) })
+				c.R.Add("messages_also_sent_through_the_bridge_entry", 1)
+				if len(d1) == 1 && len(d2) == 1 {
+					a, b := d1[0].Data, d2[0].Data
+					if i, j := bytes.IndexByte(a, '|'), bytes.IndexByte(b, '|'); i > 0 && j > 0 && !bytes.Equal(a[i:], b[j:]) {
+						vs = append(vs, tv{"layout-message", "bridge-entry", fmt.Sprintf("message %q: issued directly the record reads %q, through WriteInternal (message + one line break) it reads %q", clip(cs.msg, 80), clip(string(a[i:]), 300), clip(string(b[j:]), 300))})
+					}
+				} else {
+					vs = append(vs, tv{"one-write", "bridge-entry", fmt.Sprintf("expected one Write each, saw %d and %d", len(d1), len(d2))})
+				}
+			}
 			return payload, vs
 		}
 		// a severity that is logged BEFORE it is registered and again afterwards (registration changes its tag and colours)
@@ -515,14 +536,24 @@ func c06check(payload []byte, cs c06case, testing bool) (out []tv) {
 		return append(out, tv{"layout-attrs", "tokenize", err.Error()})
 	}
 	if cs.caller {
-		src := new(slog.Source).Extract(thePC)
-		fn := src.Function
+		// the expectation comes from the Go runtime's own tables, not from the library: line and function exactly, the
+		// file by its base name (how a path is shortened is C18's subject)
+		fr, _ := runtime.CallersFrames([]uintptr{cs.pc}).Next()
+		fn := fr.Function
 		if i := strings.LastIndex(fn, "/"); i >= 0 {
 			fn = fn[i+1:]
 		}
-		wantLoc := fmt.Sprintf("%s:%d", src.File, src.Line)
-		if len(pairs) < 2 || pairs[len(pairs)-2].Raw != wantLoc && pairs[len(pairs)-2].Key+"="+pairs[len(pairs)-2].Raw != wantLoc || pairs[len(pairs)-1].Raw != fn {
-			out = append(out, tv{"layout-caller", "caller", fmt.Sprintf("record does not end with %q %q: %q", wantLoc, fn, clip(mainRest, 200))})
+		ok := len(pairs) >= 2 && pairs[len(pairs)-1].Raw == fn
+		if ok {
+			loc := pairs[len(pairs)-2].Raw
+			if pairs[len(pairs)-2].HasKey {
+				loc = pairs[len(pairs)-2].Key + "=" + loc
+			}
+			i := strings.LastIndex(loc, ":")
+			ok = i > 0 && loc[i+1:] == strconv.Itoa(fr.Line) && filepath.Base(loc[:i]) == filepath.Base(fr.File)
+		}
+		if !ok {
+			out = append(out, tv{"layout-caller", "caller", fmt.Sprintf("record does not end with the call site %s:%d %s: %q", filepath.Base(fr.File), fr.Line, fn, clip(mainRest, 200))})
 		} else {
 			pairs = pairs[:len(pairs)-2]
 		}
